@@ -153,6 +153,57 @@ def run_saturated():
         s.cleanup()
 
 
+def run_tls_stall(eager):
+    """TLS (with or without --do-handshake-on-connect): a keep-alive connection is parked; a peer connects, sends the first
+    byte of a ClientHello and stalls, another sends plain HTTP to the TLS port; the request on the parked connection and a
+    new client are answered all the same (threads are free: the stalled peers hold at most a handler thread each)"""
+    s = rp.Server("gthread", workers=1, threads=3, tls=True, name="c13",
+                  args=["--keep-alive", "8", "--timeout", "30"] + (["--do-handshake-on-connect"] if eager else []))
+    held = []
+    try:
+        s.start()
+        s.wait_booted(1)
+        c = s.connect(timeout=6)
+        held.append(c)
+        st, body, info = s.get("/pid", sock=c, keepalive=True, timeout=5)
+        ev = [{"e": "req", "c": 1, "nseg": 1, "nth": 1, "inflight": 0, "answered": bool(st == 200 and info["complete"])}]
+        stall = s.connect(timeout=6, raw=True)
+        held.append(stall)
+        stall.sendall(b"\x16")
+        time.sleep(0.7)
+        try:
+            st, body, info = s.get("/pid", sock=c, keepalive=True, timeout=4)
+            ok = st == 200 and info["complete"]
+        except OSError:
+            ok = False
+        ev.append({"e": "req", "c": 1, "nseg": 1, "nth": 2, "inflight": 1, "answered": bool(ok)})
+        try:
+            st, body, info = s.get("/pid", timeout=4)
+            ok = st == 200 and info["complete"]
+        except OSError:
+            ok = False
+        ev.append({"e": "req", "c": 2, "nseg": 1, "nth": 1, "inflight": 1, "answered": bool(ok)})
+        plain = s.connect(timeout=6, raw=True)
+        held.append(plain)
+        plain.sendall(b"GET / HTTP/1.1\r\nHost: h\r\n\r\n")
+        time.sleep(0.7)
+        try:
+            st, body, info = s.get("/pid", timeout=4)
+            ok = st == 200 and info["complete"]
+        except OSError:
+            ok = False
+        ev.append({"e": "req", "c": 3, "nseg": 1, "nth": 1, "inflight": 1, "answered": bool(ok)})
+        return {"threads": 3, "ka_ms": 8000, "slack_ms": SLACK, "ev": ev}, \
+            {"threads": 3, "busy": 0, "plan": "tls_stall", "eager": eager, "log": s.errlog()[-300:]}
+    finally:
+        for x in held:
+            try:
+                x.close()
+            except OSError:
+                pass
+        s.cleanup()
+
+
 def run_inherited():
     """two workers share a listening socket handed over in blocking mode (fd://N): a keep-alive connection is parked on
     each; another client connects (both workers wake, one gets it); a request on every parked connection is answered,
@@ -220,8 +271,10 @@ def real_side(ctx):
         [(t, b, p) for t in (1, 2, 4) for b in range(0, t) for p in ([1, 2, 3], [2, 1, 4], [3, 3], [1, 1, 8])]
     plan = plan + [(2, 0, [1, 2], True), (3, 1, [1], True)] + ([] if ctx.quick else [(1, 0, [1, 1, 1], True), (4, 2, [2, 2], True)])
     plan = plan + [("pipelined", 2, None), ("saturated", 2, None), ("inherited", 2, None)] + ([] if ctx.quick else [("pipelined", 1, None)])
+    plan = plan + [("tls_stall", True, None)] + ([] if ctx.quick else [("tls_stall", False, None)])
     def one(a, i):
         return run_pipelined(a[1]) if a[0] == "pipelined" else run_saturated() if a[0] == "saturated" \
+            else run_tls_stall(a[1]) if a[0] == "tls_stall" \
             else run_inherited() if a[0] == "inherited" else run_real(a[0], a[1], a[2], chatter=len(a) > 3 and a[3])
     results = _parallel(plan, one, par=9)
     traces = [r[0] for r in results]
@@ -238,7 +291,7 @@ def real_side(ctx):
         where = "nth=%s,nseg=%s" % (("1" if e.get("nth") == 1 else ">1"), ("1" if e.get("nseg") == 1 else ">1")) if e["e"] == "req" else "idle"
         if e["e"] == "req" and e.get("nseg") == 0:
             where = "pipelined"
-        if m.get("plan") in ("saturated", "inherited"):
+        if m.get("plan") in ("saturated", "inherited", "tls_stall"):
             where = m["plan"]
         ctx.violation("C13/%s/real/%s" % (v, where), "%s: %s event=%s" % (v, {k: m[k] for k in m if k != "log"}, e),
                       {"trace": t, "meta": m})
